@@ -189,7 +189,7 @@ class Ctx:
             for chunk in conts:
                 if step.tagged is not None or s.done:
                     break
-                if not (step.responses and step.responses[-1].kind == 'cont'):
+                if not any(r.kind == 'cont' for r in step.responses[-8:]):
                     break
                 step.conts += 1
                 data, rs = w.send(s, chunk, max_handles=max_handles)
